@@ -24,6 +24,7 @@ func init() {
 			{"C20/validation", "forward only after POST, declared length <= 128 KiB, full body, DER without trailing bytes; 405/411/413/400 on the refusals; POST-only route", c20Validation},
 			{"C20/decode-fresh", "every request is decoded into a fresh message value (optional fields absent from the request are absent)", c20DecodeFresh},
 			{"C20/realm", "the KDC list is looked up for the realm the request names; the default realm only when it names none", c20Realm},
+			{"C20/config-source", "the Kerberos configuration is loaded from the configured file (the system default only when none is configured)", c20ConfigSource},
 			{"C20/faithful", "TCP: bytes written = decoded message; reply returned = bytes read by awaitReply; response = encode(reply); encode wraps exactly its argument", c20Faithful},
 			{"C20/bounded-io", "every KDC connection gets a constant deadline before its first write", c20BoundedIO},
 			{"C20/answers", "no undischarged bounds obligation in the proxy; every channel receive has a started sender", c20Answers},
@@ -254,6 +255,8 @@ func c20Faithful(c *Ctx) {
 			good = false
 		}
 		c.Check(good && arg(ra, 0) != nil, rule, "awaitReply send", s.Pos(), "delivers the bytes read from the KDC connection", "the reply delivered is not the bytes read from the KDC")
+		okE, whyE := mustPass(ar, s, GErrNil(resultOf(ra, 1)))
+		c.Check(okE, rule, "awaitReply send complete", s.Pos(), "a reply is delivered only when the read ended without an error", "bytes are delivered as the reply "+whyE+" of the read error: a reply cut short by a reset or the deadline is relayed as if it were complete")
 	})
 	// Handler: response = encode(forward result)
 	h := c.Fn("cmd/rdpgw/kdcproxy", "KerberosProxy.Handler")
@@ -574,5 +577,63 @@ func c20Realm(c *Ctx) {
 	}
 	if n < 2 {
 		c.Undecided(rule, "forward GetKDCs", fn.Pos(), "found %d GetKDCs calls (udp and tcp expected)", n)
+	}
+}
+
+// c20ConfigSource: realms and KDCs come from the file the administrator configured.
+func c20ConfigSource(c *Ctx) {
+	rule := "C20/config-source"
+	fn := c.Fn("cmd/rdpgw/kdcproxy", "InitKdcProxy")
+	p := fn.Params[0]
+	isParam := func(v ssa.Value) bool { return strip(v) == ssa.Value(p) }
+	isEmpty := func(v ssa.Value) bool { s, ok := constString(v); return ok && s == "" }
+	n := 0
+	for _, ci := range callsIn(fn) {
+		if !strings.HasSuffix(calleeName(ci), "gokrb5/v8/config.Load") {
+			continue
+		}
+		n++
+		hasParam := false
+		good := true
+		why := ""
+		for _, o := range origins(arg(ci, 0)) {
+			switch o.Kind {
+			case "param":
+				if o.Value == ssa.Value(p) {
+					hasParam = true
+				} else {
+					good, why = false, "another parameter"
+				}
+			case "const":
+				// the system default: only when the configured path is empty
+				if ok, w := mustPass(fn, ci.(ssa.Instruction), GOr(GEq(isParam, isEmpty), GNeq(isParam, isEmpty))); !ok {
+					_ = w
+				}
+			default:
+				good, why = false, o.String()
+			}
+		}
+		// with a configured path the load must use it: cut the edges on which the parameter is empty;
+		// the value then has to be the parameter on every remaining path
+		if good && hasParam {
+			if phi, ok := strip(arg(ci, 0)).(*ssa.Phi); ok {
+				for i, e := range phi.Edges {
+					if _, isC := constString(e); isC {
+						pred := phi.Block().Preds[i]
+						if r, _ := reachFromAvoiding(fn, fn.Blocks[0], pred, GNeq(isParam, isEmpty)); !r {
+							good, why = false, "the system default is chosen although a path is configured"
+						}
+						// the edge into the phi from pred must lie behind param == ""
+						if ok2, _ := mustPass(fn, pred.Instrs[len(pred.Instrs)-1], GEq(isParam, isEmpty)); !ok2 && pred != fn.Blocks[0] {
+							good, why = false, "the system default is chosen without testing that no path is configured"
+						}
+					}
+				}
+			}
+		}
+		c.Check(good && hasParam, rule, "InitKdcProxy Load", ci.Pos(), "krb5 configuration loaded from the configured path (system default only when empty)", "the Kerberos configuration is not loaded from the configured file ("+why+"): realms and KDCs come from another krb5.conf")
+	}
+	if n == 0 {
+		c.Undecided(rule, "InitKdcProxy Load", fn.Pos(), "no krb5 config load found")
 	}
 }
